@@ -229,6 +229,8 @@ VOLUME = {   # tier -> (L1 cases, serial, fork, spawn)
     'quick': (400, 40, 10, 3),
     'thorough': (6000, 400, 120, 30),
 }
+L2_VOLUME = {'quick': 14, 'thorough': 250}     # scripted real ProcessExecutor runs (C04, C05, C10, C11)
+L2_PROPS = {'C04': ['worker-limit-exceeded'], 'C05': ['idle-slot'], 'C11': ['dead-not-detected'], 'C10': []}
 
 
 def nontrivial(case, obs):
@@ -258,6 +260,40 @@ def run(prop, report, tier, seed, replay=None):
     dist = Counter()
     seen = set()
     distinct_nontrivial = 0
+    xterms, xkept = [], []
+    if prop in L2_PROPS and (replay is None or replay['input'].get('case', {}).get('runner') == 'l2'):
+        import exec_h as X
+        l2cases = [c for c in cases if c.get('runner') == 'l2'] if replay else []
+        if replay is None:
+            for _ in range(L2_VOLUME[tier]):
+                c = S.gen_case(rng, runner='l2', max_n=7, **spec['gen'])
+                c['max_workers'] = rng.choice([1, 2, 3])
+                c['pre'] = []
+                l2cases.append(c)
+        cases = [c for c in cases if c.get('runner') != 'l2']
+        for c in l2cases:
+            obs, script = X.run_l2(c, p_kill=0.2 if prop in ('C10', 'C11') else 0.1)
+            subs = [e[1] for e in obs['events'] if e[0] == 'submit']
+            eff = dict(c, behs=list(c['behs']))
+            for fid in script.killed_fids:
+                if fid < len(subs):
+                    eff['behs'][subs[fid]] = 'raise'
+            eff['killed'] = sorted({subs[f] for f in script.killed_fids if f < len(subs)})
+            results.append((eff, obs))
+            terms.append(S.emit_case(eff, obs))
+            xterms.append(X.emit_xcase(script, c['max_workers']))
+            xkept.append((c, script.ops))
+            dist['runner=l2'] += 1
+            dist[f"l2_kills={min(len(script.killed_fids), 3)}"] += 1
+            dist[f"outcome={obs['outcome']}"] += 1
+            for sig, what in script.violations:
+                if sig in L2_PROPS[prop]:
+                    report.violation(f'{prop}:{sig}', what, dict(case=c, executor_ops=script.ops[:60]))
+            v = spec['monitor'](eff, obs)
+            if v is not None:
+                report.violation(f'{prop}:{v[0]}', v[1], dict(case=c, killed=eff['killed'], observed=dict(outcome=obs['outcome'], exc=obs.get('exc'), events=obs['events'][:80])))
+            if nontrivial(eff, obs):
+                distinct_nontrivial += 1
     for case in cases:
         obs = S.run_case(case)
         results.append((case, obs))
@@ -287,9 +323,21 @@ def run(prop, report, tier, seed, replay=None):
                      f'{len(bad)} of {len(terms)} cases differ',
                      first_case=dict(case=case, observed=dict(outcome=obs['outcome'], exc=obs.get('exc'),
                                                               events=obs['events'][:80], batches=obs['batches'])))
+    if xterms:
+        import exec_h as X
+        try:
+            xbad = coq_failing(f'corr_{prop}_exec', X.EXEC_IMPORTS, xterms, 'check_xcase start_policy_src')
+        except CoqError as e:
+            xbad = []
+            report.broke(f'correspondence Exec.check_xcase could not be evaluated for {prop}', str(e))
+        if xbad:
+            c, ops = xkept[xbad[0]]
+            report.broke(f'correspondence Model/Exec.v vs ProcessExecutor (scripted gated workers): {len(xbad)} of {len(xterms)} runs differ',
+                         first_case=dict(case=c, executor_ops=ops[:60]))
+        dist['executor_runs_compared'] = len(xterms)
     report.coverage.update(
-        evaluations=len(cases), distinct_nontrivial=distinct_nontrivial,
-        traces_validated_against_impl=len(cases), correspondence_mismatches=(len(bad) if bad is not None else -1),
+        evaluations=len(results), distinct_nontrivial=distinct_nontrivial,
+        traces_validated_against_impl=len(results), correspondence_mismatches=(len(bad) if bad is not None else -1),
         rule=('generated DAGs (chains, diamonds, fans, shared leaves, duplicate and equal-but-distinct instances, '
               'nested tuple/list/dict parameters), random types/limits/cache pre-state/failures; L1 = real coordinator '
               'with seeded completion batches, serial/fork/spawn = real runners with recorded batches; a case is '
